@@ -64,6 +64,10 @@ theorem wf_step (cfg : Cfg) (s : Stream) (e : Ev) (hw : WF s) : WF (step cfg s e
     simp only [step]; split
     · exact ⟨fun h => hw.1 h, fun h => hw.2 h⟩
     · exact hw
+  | backData =>
+    simp only [step]; split
+    · exact ⟨fun h => hw.1 h, fun h => hw.2 h⟩
+    · exact hw
   | backBodyEnd =>
     simp only [step]; split
     · exact ⟨fun h => hw.1 h, fun h => hw.2 h⟩
@@ -168,5 +172,230 @@ theorem flush_cases (cfg : Cfg) (s : Stream) :
 theorem run_append (cfg : Cfg) (s : Stream) (a b : List Ev) :
     run cfg s (a ++ b) = run cfg (run cfg s a) b := by
   simp [run, List.foldl_append]
+
+/-! ### "the end of the connection completes a message" only for close-delimited bodies -/
+
+/-- responses that announce `Connection: close` have neither Content-Length nor
+    chunked coding (the hypothesis of the partial theorem; the code does not check it) -/
+def TameEv : Ev → Prop
+  | .backHead bs true _ => bs = .empty
+  | _ => True
+
+structure KInv (s : Stream) : Prop where
+  k1 : s.phase = .initial → s.kaBackend = true ∧ s.byEof = false
+  k2 : s.kaBackend = false → s.bodySize = .empty
+  k3 : s.byEof = true → s.kaBackend = false
+  k4 : ∀ bs, s.outcome = some (.relayed true bs) → bs = .empty
+
+theorem kinv_init : KInv Stream.init := by
+  constructor <;> simp [Stream.init]
+
+theorem decision_closeDelimited {s : Stream} (h : s.decision = .closeDelimited) :
+    s.kaBackend = false := by
+  revert h
+  unfold Stream.decision endStreamDecision
+  cases s.phase.isMain <;> cases (s.phase == .terminated) <;> cases s.kaBackend <;>
+    cases s.frontConsumed <;> simp
+
+theorem decision_main {s : Stream}
+    (h : s.decision = .closeDelimited ∨ s.decision = .forwardTerminated ∨ s.decision = .forwardUnterminated) :
+    s.phase ≠ .initial := by
+  revert h
+  unfold Stream.decision endStreamDecision
+  cases s.phase <;> cases s.kaBackend <;> cases s.frontConsumed <;> simp [Phase.isMain]
+
+theorem kinv_serverEndStream (h2 : Bool) (s : Stream) (h : KInv s) : KInv (serverEndStream h2 s) := by
+  obtain ⟨k1, k2, k3, k4⟩ := h
+  unfold serverEndStream
+  cases hd : s.decision with
+  | forwardTerminated =>
+    refine ⟨k1, k2, k3, ?_⟩
+    intro bs hb
+    simp at hb
+    have := k2 (k3 hb.1)
+    rw [← hb.2]; exact this
+  | closeDelimited =>
+    have hk := decision_closeDelimited hd
+    have hm := decision_main (Or.inl hd)
+    cases h2 with
+    | true =>
+      refine ⟨by simp, k2, fun _ => hk, ?_⟩
+      intro bs hb
+      simp at hb
+      rw [← hb]; exact k2 hk
+    | false =>
+      refine ⟨k1, k2, k3, ?_⟩
+      intro bs hb; simp at hb
+  | forwardUnterminated =>
+    have hm := decision_main (Or.inr (Or.inr hd))
+    refine ⟨by simp [forceTerminate], k2, k3, ?_⟩
+    intro bs hb; simp [forceTerminate] at hb
+  | sendDefault n =>
+    refine ⟨by simp [setDefault], by simp [setDefault], by simpa [setDefault] using k3, ?_⟩
+    intro bs hb; simp [setDefault] at hb
+  | reconnect => exact ⟨k1, k2, k3, k4⟩
+
+theorem kinv_setDefault (s : Stream) (c : Cause) (h : KInv s) : KInv (setDefault s c) := by
+  obtain ⟨k1, k2, k3, k4⟩ := h
+  refine ⟨by simp [setDefault], by simp [setDefault], by simpa [setDefault] using k3, ?_⟩
+  intro bs hb; simp [setDefault] at hb
+
+theorem kinv_forceTerminate (s : Stream) (h : KInv s) : KInv (forceTerminate s) := by
+  obtain ⟨k1, k2, k3, k4⟩ := h
+  refine ⟨by simp [forceTerminate], k2, k3, ?_⟩
+  intro bs hb; simp [forceTerminate] at hb
+
+theorem kinv_step (cfg : Cfg) (s : Stream) (e : Ev) (ht : TameEv e) (h : KInv s) :
+    KInv (step cfg s e) := by
+  have ⟨k1, k2, k3, k4⟩ := h
+  cases e with
+  | reqParsed ok =>
+    simp only [step]; split
+    · split
+      · exact ⟨k1, k2, k3, k4⟩
+      · exact kinv_setDefault _ _ h
+    · exact h
+  | connect r =>
+    simp only [step]; split
+    · split
+      · exact kinv_setDefault _ _ h
+      · cases r with
+        | err c => exact kinv_setDefault _ _ ⟨k1, k2, k3, k4⟩
+        | linked tok => exact ⟨k1, k2, k3, k4⟩
+    · exact h
+  | reqForwarded => simp only [step]; split <;> first | exact h | exact ⟨k1, k2, k3, k4⟩
+  | backHead bs cc nb =>
+    simp only [step]; split
+    · next hc =>
+      obtain ⟨hk, hb⟩ := k1 hc.2
+      refine ⟨?_, ?_, ?_, k4⟩
+      · intro hph; cases nb <;> simp at hph
+      · intro hka
+        cases cc with
+        | false => simp [hk] at hka
+        | true => exact ht
+      · intro hbe; simp [hb] at hbe
+    · exact h
+  | backData =>
+    simp only [step]; split
+    · exact ⟨k1, k2, k3, k4⟩
+    · exact h
+  | backBodyEnd =>
+    simp only [step]; split
+    · exact ⟨by simp, k2, k3, k4⟩
+    · exact h
+  | backParseError =>
+    simp only [step]; split
+    · apply kinv_serverEndStream
+      exact ⟨by simp, k2, k3, k4⟩
+    · exact h
+  | backEof =>
+    simp only [step]; split
+    · next hc =>
+      unfold terminateCloseDelimited
+      split
+      · exact ⟨by simp, k2, k3, k4⟩
+      · exact ⟨by simp, k2, fun _ => hc.2.2, k4⟩
+    · exact h
+  | backHup =>
+    simp only [step]; split
+    · exact kinv_serverEndStream _ _ h
+    · exact h
+  | frontFlush =>
+    simp only [step]; split
+    · split
+      · refine ⟨k1, k2, k3, ?_⟩
+        intro bs hb
+        simp at hb
+        rw [← hb.2]; exact k2 (k3 hb.1)
+      · exact ⟨k1, k2, k3, k4⟩
+    · exact h
+  | timeoutFront may =>
+    simp only [step]; split
+    · split
+      · exact h
+      · exact kinv_setDefault _ _ h
+    · exact kinv_setDefault _ _ h
+    · split
+      · exact kinv_setDefault _ _ h
+      · split
+        · split
+          · refine ⟨k1, k2, k3, ?_⟩
+            intro bs hb; simp at hb
+          · exact h
+        · split
+          · exact h
+          · exact kinv_forceTerminate _ h
+    · exact h
+  | timeoutBack =>
+    simp only [step]; split
+    · split
+      · exact h
+      · split
+        · exact kinv_setDefault _ _ h
+        · exact kinv_forceTerminate _ h
+    · exact h
+
+theorem kinv_run (cfg : Cfg) (es : List Ev) (s : Stream) (ht : ∀ e ∈ es, TameEv e) (h : KInv s) :
+    KInv (run cfg s es) := by
+  induction es generalizing s with
+  | nil => exact h
+  | cons e es ih =>
+    exact ih _ (fun e' he' => ht e' (List.mem_cons_of_mem _ he'))
+      (kinv_step cfg s e (ht e (List.mem_cons_self ..)) h)
+
+/-! ### shape of the outcome when nothing is left unwritten -/
+
+/-- the outcomes the property allows: a relayed response, a proxy answer given
+    before anything of another answer went out, an abort after the response started -/
+def Shape : Outcome → Prop
+  | .relayed _ _ => True
+  | .default _ a => a = false
+  | .abort a => a = true
+
+/-- a live request for which everything sozu received from the backend has been
+    written to the client, and whose response buffer is not in the error phase -/
+structure Settled (s : Stream) : Prop where
+  live : s.outcome = none
+  flushed : s.pending = false
+  noErr : s.phase ≠ .error
+  st1 : s.started = s.backConsumed
+  st2 : s.phase = .initial → s.started = false
+  st3 : s.phase ≠ .initial → s.started = true ∧ s.isLinked = true
+
+theorem settled_shape (cfg : Cfg) (s : Stream) (e : Ev) (h : Settled s)
+    (hpe : e = .backParseError → s.phase = .initial) :
+    ∀ o, (step cfg s e).outcome = some o → Shape o := by
+  obtain ⟨live, flushed, noErr, st1, st2, st3⟩ := h
+  rcases s with ⟨st, att, fc, ph, bs, be, ka, kf, bc, pe, sr, oc⟩
+  rcases cfg with ⟨h2⟩
+  simp only at live flushed noErr st1 st2 st3 hpe
+  subst live flushed st1
+  cases e with
+  | reqParsed ok => cases st <;> cases ok <;> cases ph <;> simp_all [step, setDefault, Shape, Stream.isLinked]
+  | connect r =>
+    cases st <;> cases r <;> cases ph <;> simp_all [step, setDefault, Shape, Stream.isLinked] <;>
+      split <;> simp_all [Shape]
+  | reqForwarded => cases st <;> simp_all [step, Stream.isLinked]
+  | backHead bs' cc nb => cases st <;> cases ph <;> simp_all [step, Stream.isLinked]
+  | backData => cases st <;> cases ph <;> simp_all [step, Stream.isLinked]
+  | backBodyEnd => cases st <;> cases ph <;> simp_all [step, Stream.isLinked]
+  | backParseError =>
+    cases st <;> cases ph <;> cases fc <;>
+      simp_all [step, Stream.isLinked, serverEndStream, Stream.decision, endStreamDecision,
+        Phase.isMain, setDefault, Shape]
+  | backEof =>
+    cases st <;> cases ph <;> cases ka <;> cases bs <;>
+      simp_all [step, Stream.isLinked, terminateCloseDelimited]
+  | backHup =>
+    cases st <;> cases ph <;> cases ka <;> cases fc <;> cases h2 <;>
+      simp_all [step, Stream.isLinked, serverEndStream, Stream.decision, endStreamDecision,
+        Phase.isMain, setDefault, forceTerminate, Shape]
+  | frontFlush => simp_all [step]
+  | timeoutFront may =>
+    cases st <;> cases ph <;> cases may <;> cases h2 <;>
+      simp_all [step, Stream.isLinked, setDefault, forceTerminate, Shape]
+  | timeoutBack =>
+    cases st <;> cases ph <;> simp_all [step, Stream.isLinked, setDefault, forceTerminate, Shape]
 
 end Sozu.Answers
